@@ -21,7 +21,7 @@ REQUIRED_MONITORS = ["closed-form:outputs-compared", "closed-form:input-grads-co
                      "apply:bit-compared", "gradcheck:run"]
 REQUIRED_REACH = {"functional.py": ["residual_split", "residual_add", "residual_apply"]}
 MIN_NONTRIVIAL = {"quick": 800, "thorough": 20000}
-BRANCHES = ["linear", "tanh", "gelu_linear", "u_linear", "u_gelu", "sin_scale", "u_silu_linear", "constant", "detached"]
+BRANCHES = ["linear", "tanh", "gelu_linear", "u_linear", "u_gelu", "sin_scale", "u_silu_linear", "constant", "detached", "inplace_relu_linear", "inplace_mul"]
 
 
 def gen_cases(tier: str, seed: int) -> List[Dict[str, Any]]:
@@ -51,6 +51,16 @@ def make_branch(kind: str, d: int, gen, torch, U):
     import torch.nn.functional as F
 
     W = torch.randn(d, d, generator=gen, dtype=torch.float64) / math.sqrt(d)
+    if kind == "inplace_relu_linear":
+        # a branch that works IN PLACE on the tensor it is handed (nn.ReLU(inplace=True) as first op): the skip path and the
+        # caller's x must not see it
+        f_ = lambda t: F.relu(t, inplace=True) @ W.T
+        f_.pure = lambda t: F.relu(t) @ W.T
+        return f_
+    if kind == "inplace_mul":
+        f_ = lambda t: torch.tanh(t.mul_(0.5))
+        f_.pure = lambda t: torch.tanh(t * 0.5)
+        return f_
     if kind == "constant":
         c = torch.randn(d, generator=gen, dtype=torch.float64).requires_grad_(True)
         return lambda t: c.expand(t.shape) * 1.0  # ignores its input: only the skip path carries gradient to x
@@ -131,6 +141,7 @@ def run_case(case: Dict[str, Any], ctx) -> None:
 
     def closed(x):
         def mix(i, t, f):
+            f = getattr(f, "pure", f)  # out-of-place twin of an in-place branch
             return (t + taus[i] * f(t)) / math.sqrt(1 + taus[i] ** 2)
         if not nested:
             t = x
@@ -141,7 +152,7 @@ def run_case(case: Dict[str, Any], ctx) -> None:
             if i == len(layers) - 1:
                 return lambda t: mix(i, t, fs[i])
             nxt = build(i + 1)
-            return lambda t: mix(i, t, lambda r: nxt(fs[i](r)))
+            return lambda t: mix(i, t, lambda r: nxt(getattr(fs[i], "pure", fs[i])(r)))
         return build(0)(x)
 
     key = "C06:" + ("nested" if nested else "sequential")
@@ -170,6 +181,8 @@ def run_case(case: Dict[str, Any], ctx) -> None:
     except Exception as e:
         ctx.violation(key + ":raises:" + exc_key(e), repr(e), case=case)
         return
+    if not torch.equal(xa.detach(), x0) or not torch.equal(xb.detach(), x0):
+        ctx.violation(key + ":caller-tensor-modified-by-the-branch", "x changed although only the branch's own input was modified in place", case=case)
     xc = x0.clone().requires_grad_(True)
     # The unit-scaled branch functions inside f carry their own (non-true) gradient scales; the closed form is
     # differentiated with the same f, so any difference is attributable to the residual primitives alone.
